@@ -220,6 +220,8 @@ def rule_r5(chk, facts):
 
 
 def run(chk, facts, info):
+    from . import pc_snapshot
+    pc_snapshot.run(chk, facts, 'C09-R10', unit_ok=lambda u: u.endswith('pseudo.c') or u in ('asmcode.c', 'asmallg.c'), min_instances=2)
     rule_r1(chk, facts)
     rule_r2(chk, facts)
     rule_r3(chk, facts)
